@@ -130,6 +130,31 @@ theorem C17_no_notabs_panic (pats : List Bytes) (loc : Bytes) (kind : Kind) (url
     · simp only [ha, Bool.false_eq_true, if_false]
       split <;> simp
 
+/-- **No spelling escapes**, for every byte string used as a location.  The
+URL→path decision of the code is one test: does the string start with `/`
+(`filepath.IsAbs` on Unix).  If it does not — relative paths (never resolved
+against the working directory), `file://…`, `FILE:`, `ftp://`, `C:\…`,
+`\\host\share`, a leading space — nothing is opened locally and the string goes
+to the HTTP client.  If it does — including `//host/path`, `/%2e%2e/x` (no
+percent-decoding takes place), `/a/../b`, `/a//b/./` — the only path that can
+be opened is the lexically cleaned one, which names exactly the file the
+kernel reaches from the spelling in a symlink-free tree and has plain
+components only, and it must match a configured pattern.  (The property is
+about the cleaned absolute PATH: symlinks inside a matching directory are
+followed by the kernel and are out of scope, as the property says.) -/
+theorem C17_no_spelling_escapes (pats : List Bytes) (loc : Bytes) :
+    (isAbs loc = false → reader pats loc = .http ∧ opens pats loc = none) ∧
+    (∀ p, opens pats loc = some p →
+      isAbs loc = true ∧ p = pathClean loc ∧ comps p = resolve loc ∧
+      (∀ c ∈ comps p, plainComp c) ∧ pathClean p = p ∧
+      pats ≠ [] ∧ ∃ g ∈ pats, globMatches g p = true) := by
+  refine ⟨fun h => C17_nonabs_never_local pats loc h, ?_⟩
+  intro p hp
+  obtain ⟨h1, h2, h3, h4⟩ := C17_only_matching pats loc p hp
+  obtain ⟨_, c2, c3, _, c5⟩ := C17_clean_is_resolution loc h1
+  subst h2
+  exact ⟨h1, rfl, c2, by rw [c2]; exact c3, c5, h3, h4⟩
+
 /-! ### Depth -/
 
 /-- `*` and `?` cannot be used to climb into sub-directories: a path matched
@@ -456,6 +481,18 @@ example : opens [[47, 115, 47, 42, 46, 116, 120, 116]] [47, 115, 47, 120, 47, 46
 example : opens [[47, 115, 47, 42, 46, 116, 120, 116]] [47, 115, 47, 46, 46, 47, 111, 47, 97, 46, 116, 120, 116] = none := by
   decide
 example : opens [[47, 115, 47, 42, 46, 116, 120, 116]] [47, 115, 47, 100, 47, 97, 46, 116, 120, 116] = none := by decide
+-- spellings, with the pattern "/s/*": only the last two reach the file system, at the cleaned path
+example : reader [[47, 115, 47, 42]] [102, 105, 108, 101, 58, 47, 47, 47, 115, 47, 97] = .http := by decide          -- file://
+example : reader [[47, 115, 47, 42]] [70, 73, 76, 69, 58, 47, 115, 47, 97] = .http := by decide             -- FILE:
+example : reader [[47, 115, 47, 42]] [115, 47, 97] = .http := by decide                   -- relative
+example : reader [[47, 115, 47, 42]] [46, 46, 47, 115, 47, 97] = .http := by decide
+example : reader [[47, 115, 47, 42]] [67, 58, 92, 115, 92, 97] = .http := by decide               -- Windows style
+example : reader [[47, 115, 47, 42]] [32, 47, 115, 47, 97] = .http := by decide                 -- leading space
+example : reader [[47, 115, 47, 42]] [47, 115, 47, 37, 50, 101, 37, 50, 101, 47, 101, 116, 99] = .noMatch := by decide      -- no percent-decoding
+example : reader [[47, 115, 47, 42]] [47, 47, 115, 47, 97] = .opened [47, 115, 47, 97] := by decide   -- //host/path is a path
+example : reader [[47, 115, 47, 42]] [47, 120, 47, 46, 46, 47, 47, 115, 47, 46, 47, 97, 47] = .opened [47, 115, 47, 97] := by decide
+example : reader [[47, 115, 47, 42]] [47, 115, 47, 46, 46, 47, 101, 116, 99, 47, 112, 97, 115, 115, 119, 100] = .noMatch := by decide
+
 -- an add of an existing matching file succeeds and puts that file in force
 example : runOp .add (⟨[[47, 115, 47, 42]], [47, 115, 47, 47, 97], .file, false, false, true⟩ : Env)
     = .done 200 .ok (.file [47, 115, 47, 97]) true := by decide
